@@ -79,6 +79,10 @@ class extract_visitor(NodeVisitor):
     def visit_Assign(self, node):
         # type: (ast.Assign) -> None
         eend = get_expr_end(node.value)
+        # the value is evaluated first: where it ends in a region of its own
+        # (`x = c or (y := x)`) the targets are bound there, not in the region
+        # the value's own branches fork from
+        self.visit(node.value)
         for targets in node.targets:
             for name, _ in get_indexes_for_target(targets, [], []):
                 if isinstance(name, Attribute):
@@ -89,7 +93,8 @@ class extract_visitor(NodeVisitor):
                     name.flow = self.flow  # type: ignore[attr-defined]
                     self.flow.add_name(AssignedName(name.id, eend, np(name), node.value))
 
-        self.generic_visit(node)
+        for targets in node.targets:
+            self.visit(targets)
 
     def visit_AnnAssign(self, node):
         # type: (ast.AnnAssign) -> None
@@ -98,6 +103,10 @@ class extract_visitor(NodeVisitor):
         else:
             eend = get_expr_end(node)
         name = node.target
+        # annotation and value are evaluated before the target is bound
+        self.visit(node.annotation)
+        if node.value:
+            self.visit(node.value)
         if isinstance(name, Attribute):
             if node.value:
                 # `self.x: T` alone assigns nothing
@@ -111,7 +120,7 @@ class extract_visitor(NodeVisitor):
             # `x: T` binds nothing but makes x a variable of this scope
             # (`(x): T` does not: the compiler only evaluates the annotation)
             self.flow.mark_local(name.id)
-        self.generic_visit(node)
+        self.visit(node.target)
 
     def visit_TypeAlias(self, node):
         # type: (ast.AST) -> None
